@@ -27,6 +27,8 @@ import run  # noqa: E402
 import vx   # noqa: E402
 
 OUT = os.path.join(run.VERIF, "hint_deps.json")
+CTX_OUT = os.path.join(run.VERIF, "hint_ctx.json")
+CTX = {}
 
 
 def sites_of(u):
@@ -37,6 +39,9 @@ def sites_of(u):
     for s in vx.HINT_SITES:
         if s not in seen:
             seen.append(s)
+    CTX.setdefault(u["name"], {})
+    for (qual, where, anchor, k), c in vx.HINT_CTX_OUT.items():
+        CTX[u["name"]].setdefault(qual, {})[f"{where}|{anchor}#{k}"] = c
     return seen
 
 
@@ -68,6 +73,11 @@ def main():
         for s in sites_of(u):
             work.append((u, s))
     print(f"{len(work)} anchored hints in {len(units)} units")
+    ctx_all = {}
+    if args and os.path.exists(CTX_OUT):
+        ctx_all = json.load(open(CTX_OUT))
+    ctx_all.update(CTX)
+    json.dump(ctx_all, open(CTX_OUT, "w"), indent=0, sort_keys=True)
     table = {}
     if args and os.path.exists(OUT):
         table = json.load(open(OUT))
